@@ -1,6 +1,7 @@
 package props
 
 import (
+	"os"
 	"bytes"
 	"database/sql"
 	"fmt"
@@ -36,7 +37,7 @@ func (c16) ID() string { return "C16" }
 
 var (
 	// L0..L2 are added; L3 never is (unknown name); the rest come from the profile / service kinds
-	c16Names = []string{"L0", "L1", "L2", "L3", "http1", "smb-prof", "ext-prof", "S0", "S1"}
+	c16Names = []string{"web-1", "web_1", "Web-1", "w%b-1", "http1", "smb-prof", "ext-prof", "S0", "S1"}
 	c16Ports = []int{8080, 8081, 8082, 8083}
 	c16UAs   = []string{"", "ua-one/1.0", "ua-two/2.0 (X11)"}
 	c16Hdrs  = [][]string{nil, {"X-Tag: alpha"}, {"X-Tag: beta", "X-Mode: on"}}
@@ -905,6 +906,9 @@ func (st *c16State) advertised() (map[string]bool, bool) {
 			continue
 		}
 		name, _ := e.Pkg.Body.Info["Name"].(string)
+		if os.Getenv("VERIF_DEBUG") != "" {
+			fmt.Fprintf(os.Stderr, "C16 advertised: sub=%d name=%q proto=%v status=%v error=%v\n", e.Pkg.Body.SubEvent, name, e.Pkg.Body.Info["Protocol"], e.Pkg.Body.Info["Status"], e.Pkg.Body.Info["Error"])
+		}
 		switch e.Pkg.Body.SubEvent {
 		case world.ListenerAdd:
 			proto, _ := e.Pkg.Body.Info["Protocol"].(string)
